@@ -124,15 +124,15 @@ macro_rules! read_at {
         }
     };
 }
-//@ id=C03,C11 tier=thorough name=c03_read_at_fwd timeout=7200 role=read_at bound=ghost-file-100B,xor-key-2,reads-at-offsets-5-then-18(forward,odd-then-even-offset) mem=30 fn=BlkFile::read_block,BlkFile::open,XorReader::read,XorReader::seek,read_block,read_block_header
+//@ id=C03,C11 tier=extra name=c03_read_at_fwd timeout=7200 role=read_at bound=ghost-file-100B,xor-key-2,reads-at-offsets-5-then-18(forward,odd-then-even-offset) mem=30 fn=BlkFile::read_block,BlkFile::open,XorReader::read,XorReader::seek,read_block,read_block_header
 read_at!(c03_read_at_fwd, 5, 18);
-//@ id=C03,C11 tier=thorough name=c03_read_at_back timeout=7200 role=read_at bound=reads-at-offsets-17-then-8(backward-seek) mem=20
+//@ id=C03,C11 tier=extra name=c03_read_at_back timeout=7200 role=read_at bound=reads-at-offsets-17-then-8(backward-seek) mem=20
 read_at!(c03_read_at_back, 17, 8);
-//@ id=C03,C11 tier=thorough name=c03_read_at_same timeout=1800 role=read_at bound=same-offset-twice mem=20
+//@ id=C03,C11 tier=extra name=c03_read_at_same timeout=1800 role=read_at bound=same-offset-twice mem=20
 read_at!(c03_read_at_same, 9, 9);
 
 // truncated file: the file ends at a symbolic byte inside [offset-4, offset+81): Err, no panic
-//@ id=C10,C14 tier=thorough name=c10_read_truncated timeout=5400 role=read_fault bound=ghost-file(<=120B)-truncated-at-any-length,block-at-offset-20 mem=20 fn=BlkFile::read_block,read_block,read_block_header
+//@ id=C10,C14 tier=extra name=c10_read_truncated timeout=5400 role=read_fault bound=ghost-file(<=120B)-truncated-at-any-length,block-at-offset-20 mem=20 fn=BlkFile::read_block,read_block,read_block_header
 #[kani::proof]
 #[kani::unwind(204)]
 #[kani::stub(crate::blockchain::proto::script::eval_from_bytes, stub_eval)]
@@ -166,7 +166,7 @@ fn c10_read_truncated() {
 }
 
 // missing file -> Err
-//@ id=C10 tier=thorough name=c10_read_missing timeout=3600 role=read_fault bound=blk-file-removed fn=BlkFile::read_block,BlkFile::open
+//@ id=C10 tier=extra name=c10_read_missing timeout=3600 role=read_fault bound=blk-file-removed fn=BlkFile::read_block,BlkFile::open
 #[kani::proof]
 #[kani::unwind(40)]
 #[kani::stub(crate::blockchain::proto::script::eval_from_bytes, stub_eval)]
